@@ -107,8 +107,12 @@ impl BaseElement {
         let s_lo = s as u64;
         let z = (s_hi << 32) - s_hi;
         let (res, over) = s_lo.overflowing_add(z);
+        let res = res.wrapping_add(0u32.wrapping_sub(over as u32) as u64);
+        // bring the result into the canonical range [0, M): internal values must be canonical
+        // because equality compares them directly
+        let (reduced, under) = res.overflowing_sub(M);
 
-        BaseElement::from_mont(res.wrapping_add(0u32.wrapping_sub(over as u32) as u64))
+        BaseElement::from_mont(if under { res } else { reduced })
     }
 }
 
